@@ -12,8 +12,35 @@ trap restore EXIT
 prop=$(jq -r .property "$M/meta.json")
 loc=$(jq -r '.demo_location // empty' "$M/meta.json")
 cmd=$(jq -r '.demo_command // empty' "$M/meta.json")
-# keep only the `go test ...` / `go run ...` part (agents often prefix a cp from their worktree)
-cmd=$(echo "$cmd" | grep -oE 'go (test|run)[^;&|(]*' | head -1)
+# keep only the `go test ...` / `go run ...` part (agents often prefix a cp from their worktree); quote-aware split
+cmd=$(python3 - "$cmd" <<'PY'
+import sys,re
+c=sys.argv[1]
+parts=[];cur='';q=None;i=0
+while i<len(c):
+    ch=c[i]
+    if q:
+        cur+=ch
+        if ch==q: q=None
+    elif ch in '"\'':
+        q=ch;cur+=ch
+    elif c.startswith('&&',i):
+        parts.append(cur);cur='';i+=1
+    elif ch==';':
+        parts.append(cur);cur=''
+    else:
+        cur+=ch
+    i+=1
+parts.append(cur)
+for p in parts:
+    p=p.strip()
+    m=re.search(r'(go (test|run)\b.*)',p)
+    if m:
+        x=m.group(1)
+        x=re.sub(r'\s+\(the demo.*$','',x)
+        print(x);break
+PY
+)
 demo() { # runs the demo in /repo, returns its exit code
   if [ -f "$M/demo_test.go" ] && [ -n "$loc" ]; then
     cp "$M/demo_test.go" "/repo/$loc/zz_seeded_demo_test.go"
